@@ -45,6 +45,11 @@ CHECKS = {
    text="TLC explores every interleaving of 2-3 goroutines x up to 5 Garble/Release operations incl. double release and buffers dropped by the runtime and checks StableUntilRelease/Exclusive/NoDoublePut/NoOverwrite/OnePool (deviations such as a Release that keeps its scratch or a Garble that re-pools on return are rejected by the model); on the real code the creation race is forced through a gate, 2-8 goroutines share one fresh circuit, every garbling is evaluated against Compute when made and again right before release, the recorded lifetimes per scratch buffer must be exclusive in TLC, and the race detector must stay silent.",
    note="Trusts TLC, the Go race detector (for 'free of data races'), buffer identity = address of Wires[0]; a process crash while sharing a circuit counts as a violation.",
    ref="5 C17"),
+ "C18": dict(
+   technique="TLA+ spec Sha2pc.tla (four rounds, persist/restart of either party, re-encoding, one foreign or malformed message, checks placed where the code performs them) model-checked by TLC; every behaviour replayed on the real rounds with all messages and sessions as bytes on four curves; mutation and interleaving drivers",
+   text="TLC enumerates every pattern of restarts and re-encodings with at most one message replaced by that of another session, of a session on another curve with the same id, or by bytes that do not parse (1183 behaviours; Digest/Rejects/NoFaultNoError, termination); each behaviour is executed on GarblerRound1/3, EvaluatorRound2/4 and the Encode/Decode functions (all of them on P-256 in the thorough tier, samples on P-224/384/521), comparing the outcome and the rejecting stage with the prediction, checking Encode(Decode(x)) = x on every valid message and session, the fixed sizes, random mutations (no crash, no wrong digest) and payloads held across interleaved sessions.",
+   note="Trusts TLC, crypto/sha256 as the reference digest, P-256 as the mutation target.",
+   ref="5 C18"),
 }
 
 NOT_APPLICABLE = {}
